@@ -452,6 +452,14 @@ func BVBin(op string, a, b *Term) *Term {
 	ua, ub := unmark(a), unmark(b)
 	if ua.IsConst() && ub.IsConst() {
 		if r := foldBin(op, ua.Val, ub.Val, w); r != nil {
+			if op == "bvadd" && (a.Op == "mark" || b.Op == "mark") {
+				// offset + marked constant index: keep the result an instantiation candidate
+				key := a.Name
+				if b.Op == "mark" {
+					key = b.Name
+				}
+				return Mark(BVConst(r, w), key)
+			}
 			return BVConst(r, w)
 		}
 	}
